@@ -43,6 +43,7 @@ let engines : (string * (z list -> (z list * z list) list -> verdict)) list = [
   ("mapbatch", chk_mapbatch);
   ("alias", chk_alias);
   ("mapext", chk_mapext);
+  ("callback", chk_callback);
 ]
 
 let () =
